@@ -250,6 +250,24 @@ Definition holding (p : pc) : bool :=
 Definition quiescent (s : state) : Prop :=
   forall t, pcs s t = Idle \/ exists r, pcs s t = Done r.
 
+(* ---------- manifest layer ----------
+   A push PUTs the referrer manifest BEFORE it calls updateReferrersIndex, a delete
+   DELETEs it AFTER; these two exchanges decide which manifests are live. *)
+Inductive mevent := MPut (k : N) | MDel (k : N) | MIdx (e : event).
+Definition mstate := (state * list N)%type.   (* + keys of the live referrer manifests *)
+Definition is_live (k : N) (m : mstate) : bool := existsb (N.eqb k) (snd m).
+Definition mstep (sg : bool) (m : mstate) (e : mevent) : option mstate :=
+  match e with
+  | MPut k => Some (fst m, k :: snd m)
+  | MDel k => Some (fst m, filter (fun x => negb (x =? k)) (snd m))
+  | MIdx e' => match step sg (fst m) e' with Some s' => Some (s', snd m) | None => None end
+  end.
+Fixpoint mrun (sg : bool) (m : mstate) (tr : list mevent) : option mstate :=
+  match tr with
+  | [] => Some m
+  | e :: tr' => match mstep sg m e with Some m' => mrun sg m' tr' | None => None end
+  end.
+
 (* ---------- replay of a visible schedule ----------
    What the harness sees between two quiescent points of the real code: a caller
    starts (VG), the main caller's index GET / PUT / DELETE is answered (VP / VU / VD,
